@@ -86,6 +86,50 @@ def generate(rng: random.Random, tier: str):
                 sl = Slice(Fragment.from_(sc_.text("X")), 0, 0) if rng.random() < 0.5 else g.slice_from(rng.choice(docs))
                 yield S.apply_case(fam, doc, ReplaceStep(a, c, sl, True), True, "structure-flag-with-content")[0]
 
+    # remove_mark across an inline leaf that does NOT carry the mark, between two runs that do (appended stream): the two
+    # runs must stay two RemoveMark steps - merged into one, the naive inverse would also mark the leaf and undo would not be
+    # exact (seeded change C04-9 counted only text nodes as runs)
+    from prosemirror.transform import Transform as _T
+    for fam in gen.FAMILY:
+        sc_ = gen.family(fam)
+        if "paragraph" not in sc_.nodes:
+            continue
+        para_t = sc_.nodes["paragraph"]
+        leaves = [t for t in sc_.nodes.values() if t.is_inline and t.is_leaf and not t.is_text and not t.has_required_attrs()]
+        if "image" in sc_.nodes and sc_.nodes["image"].is_inline:
+            leaves.append(sc_.nodes["image"])
+        marks_ = [m for m in sc_.marks.values() if para_t.allows_mark_type(m)]
+        for _ in range(6 if quick else 80):
+            if not leaves or not marks_:
+                break
+            mt = rng.choice(marks_)
+            try:
+                mk = mt.create({"href": "h"} if "href" in mt.attrs else None)
+            except Exception:  # noqa: BLE001
+                continue
+            lt = rng.choice(leaves)
+            leaf = lt.create({"src": "s"} if "src" in lt.attrs else None)
+            other = [m.create({"href": "o"} if "href" in m.attrs else None) for m in marks_ if m is not mt and rng.random() < 0.3
+                     and not m.excludes(mt) and not mt.excludes(m)]
+            kids = [sc_.text("one", [mk] + other), leaf, sc_.text("two", [mk]), sc_.text(" tail")]
+            try:
+                para = para_t.create(None, Fragment.from_(kids))
+                doc = sc_.top_node_type.create_and_fill(None, Fragment.from_(para))
+                doc.check()
+            except Exception:  # noqa: BLE001
+                continue
+            start = doc.content.size - para.node_size + 1
+            a = start + rng.randint(0, 2)
+            c = start + 3 + 1 + rng.randint(1, 3)
+            tr = _T(doc)
+            what = rng.choice(["mark", "type", "all"])
+            try:
+                tr.remove_mark(a, c, mk if what == "mark" else (mt if what == "type" else None))
+            except Exception as e:  # noqa: BLE001
+                continue
+            yield S.history_case(fam, tr.before, tr.steps, tr.doc, "remove-mark-across-leaf",
+                                 [["remove_mark", {"from": a, "to": c, "what": what}, "ok"]])
+
 
 def rebuild(desc):
     return S.rebuild_history(desc) if desc.get("case") == "history" else S.rebuild_apply(desc)
@@ -144,6 +188,25 @@ def classify(case):
                 same = [m for m in nd.marks if m.type == mk.type]
                 if len(same) >= 2 and any(m.eq(mk) for m in same[:-1]) and not same[-1].eq(mk):
                     return "C04-node-mark-same-type-order"
+        if st["type"] == "RemoveMarkStep":
+            # the range form of the same upstream semantics: an inline node in the range carries several marks of a type
+            # that does not exclude itself, and the removed one is not the last of them
+            mk = sc.mark_from_json(st["mark"])
+            if not mk.type.excludes(mk.type):
+                hit = []
+
+                def look(nd, pos, *_a, mk=mk, hit=hit):
+                    if nd.is_inline:
+                        same = [m for m in nd.marks if m.type == mk.type]
+                        if len(same) >= 2 and any(m.eq(mk) for m in same[:-1]) and not same[-1].eq(mk):
+                            hit.append(pos)
+                    return True
+                try:
+                    cur.nodes_between(st["from_"], st["to"], look)
+                except Exception:  # noqa: BLE001
+                    hit = []
+                if hit:
+                    return "C04-mark-step-same-type-order"
         try:
             res = S.step_from_desc(sc, st).apply(cur)
         except Exception:  # noqa: BLE001
